@@ -21,9 +21,11 @@ struct Case {
     int ratio_class = 0;
     int ncells = 2, threads = 1, stats_in_string = 1, use_run = 0;
     std::vector<Ev> events;
+    std::vector<int> cls;  // class of each initial cell: 0 epithelial, 2 lumen, 4 static (static cells still grow and change pressure)
     void write(vf::Writer& w) const {
         w.s(dt_txt), w.s(S_txt), w.s(T_txt), w.i(ratio_class), w.i(ncells), w.i(threads), w.i(stats_in_string), w.i(use_run), w.u(events.size());
         for (auto& e : events) w.i(e.iter), w.i(e.kind), w.u(e.k);
+        for (int q : cls) w.i(q);
         w.nl();
     }
     static Case read(vf::Reader& r) {
@@ -36,6 +38,7 @@ struct Case {
             e.iter = (int)r.i(), e.kind = (int)r.i(), e.k = (unsigned)r.u();
             c.events.push_back(e);
         }
+        for (int i = 0; i < c.ncells; i++) c.cls.push_back(r.more() ? (int)r.i() : 0);
         return c;
     }
 };
@@ -62,6 +65,7 @@ static rc::Gen<Case> genCase() {
         const double T = dt * (iters - 1 + *uniform(0.05, 1.0));
         c.dt_txt = g17(dt), c.S_txt = g17(S), c.T_txt = g17(T);
         c.ncells = *irange(1, 4);
+        for (int i = 0; i < c.ncells; i++) c.cls.push_back(i == 0 ? 0 : *rc::gen::element(0, 0, 0, 4, 4, 2));
         c.threads = *rc::gen::element(1, 2, 4);
         c.stats_in_string = *irange(0, 1);
         c.use_run = *irange(0, 3) == 0;
@@ -133,9 +137,16 @@ static std::string run(const Case& k, vf::Ctx& ctx) {
     if (sp.time_step_ != dt || sp.sampling_period_ != S || sp.simulation_duration_ != T) return "time step / sampling period / duration not those of the file";
     // ---- cells: non-interacting level-1 balls
     std::vector<cell_ptr> cells;
+    std::map<int, std::shared_ptr<cell_type_parameters>> class_type;
     for (int i = 0; i < k.ncells; i++) {
         TriMesh m = tg::ball(1, 1.0, V3(5.0 * i, 0, 0));
-        cell_ptr c = ct::make_cell<epithelial_cell>(m, (unsigned)i, types[0]);
+        const int cls = i < (int)k.cls.size() ? k.cls[i] : 0;
+        if (cls != 0 && !class_type.count(cls)) {
+            class_type[cls] = std::make_shared<cell_type_parameters>(*types[0]);
+            class_type[cls]->global_type_id_ = (short)cls;
+        }
+        cell_ptr c = cls == 0 ? cell_ptr(ct::make_cell<epithelial_cell>(m, (unsigned)i, types[0])) : ct::make_cell_of_class(cls, m, (unsigned)i, class_type[cls]);
+        if (cls != 0) ctx.count(cls == 4 ? "population_with_a_static_cell" : "population_with_a_lumen");
         scope.add(c);
         cells.push_back(c);
     }
@@ -143,6 +154,12 @@ static std::string run(const Case& k, vf::Ctx& ctx) {
     types[0]->min_vol_ = 0.4 * v0;
     types[0]->avg_division_vol_ = 1.6 * v0;
     types[0]->std_division_vol_ = 0;
+    // every cell subject to internal forces grows a little at every iteration (0.05 % of its volume), so that the rows of two records differ
+    types[0]->avg_growth_rate_ = 5e-4 * v0 / dt, types[0]->std_growth_rate_ = 0;
+    for (auto& kv : class_type) {
+        kv.second->min_vol_ = types[0]->min_vol_, kv.second->avg_growth_rate_ = types[0]->avg_growth_rate_, kv.second->std_growth_rate_ = 0;
+        kv.second->avg_division_vol_ = std::numeric_limits<double>::infinity(), kv.second->std_division_vol_ = 0;
+    }
     for (auto& c : cells) c->initialize_random_properties();
     std::unique_ptr<sk::test_solver> Sv;
     try {
